@@ -24,5 +24,4 @@ package xatomic
 
 //@ func (*Pointer).CompareAndSwap
 //@   props C05 C13
-//@   binds x old nEw
 //@   ensures [reports-whether-the-exchange-happened|C05] result == cas_ok(p)
